@@ -468,6 +468,7 @@ def c02(rep, tier):
     ERR_RECS = ('Theo::ParseError', 'Theo::SyntaxError', 'Theo::CodegenResult::Error')
     token_positions_rule(F, M, lib)
     dangling_rule(rep, M, lib)
+    recursion_depth_rule(rep)
     # the generator reports errors at its current position; before the first visible node it is the initial one
     genf2 = lib.fn('Theo::gen')
     for e in walk_all_exprs(genf2['body']):
@@ -497,6 +498,27 @@ def c02(rep, tier):
                 else:
                     F.check(okm and okl, inst, 'message has literal text; location from %s' % why,
                             'malformed error record: %s' % ('empty message' if not okm else why), where)
+
+
+def recursion_depth_rule(rep):
+    """The parser is recursive descent: recursion that follows the NESTING of the input (a call between an opening and a
+    closing token) is inherent; recursion along a SEQUENCE (statement after ';', parameter or argument after ',') makes the
+    stack depth proportional to the length of the input, and a long enough input exhausts the stack."""
+    from . import grammar
+    Mr = rep.rule('C02.m', 'the stack depth of the parser follows the nesting of the input, not its length: no cycle of grammar functions '
+                           'recurses without matching a closing token after the recursive call', floor=0)
+    sk = grammar.Skeleton()
+    cycles = sk.sequence_recursion()
+    rep.extra['parser_recursion_cycles_without_closing_token'] = [' -> '.join(c) for c, steps in cycles]
+    fns = sorted(q for q in sk.grammar_fns)
+    for c, steps in cycles:
+        for st in (steps or ['cycle ' + ' -> '.join(c)]):
+            Mr.violation('sequence step %s' % st, 'the grammar functions %s call each other once per element of this sequence and nothing is matched after the '
+                         'call returns: parsing n elements needs n nested activations, so a long (not deeply nested) input overflows the stack' % ' -> '.join(c),
+                         'Compiler/src/parse.cpp', witness={'input': 'tens of thousands of repetitions of the step (statements after ";", parameters or arguments after ",", definitions, labels)'})
+    for q in fns:
+        if not any(q in c for c, steps in cycles):
+            Mr.ok('function %s' % q, 'takes part in no sequence recursion', 'Compiler/src/parse.cpp')
 
 
 SEQ_PREFIX = ('std::vector<', 'std::deque<', 'std::basic_string<', 'std::__cxx11::basic_string<')
